@@ -616,7 +616,7 @@ impl<'de> From<LazyValue<'de>> for OwnedLazyValue {
 
 impl Display for OwnedLazyValue {
     fn fmt(&self, f: &mut fmt::Formatter) -> fmt::Result {
-        write!(f, "{:?}", crate::to_string(self))
+        f.write_str(&crate::to_string(self).map_err(|_| fmt::Error)?)
     }
 }
 
